@@ -4779,8 +4779,11 @@ def Attack_rate_discrete(Pk, p, rho = None, Sk0=None,
         phiR0 = 0
 
     theta  = 1
+    psihatPrime1 = psihatPrime(1)
+    if psihatPrime1 == 0: #psihatPrime is identically 0 if no susceptible node has a neighbor
+        psihatPrime1 = 1
     for counter in range(number_its):
-        theta = 1-p + p*(phiR0 +  phiS0*psihatPrime(theta)/psihatPrime(1))
+        theta = 1-p + p*(phiR0 +  phiS0*psihatPrime(theta)/psihatPrime1)
     return 1 - psihat(theta)
 
 def Attack_rate_discrete_from_graph(G, p, initial_infecteds=None, 
@@ -4816,6 +4819,8 @@ def Attack_rate_discrete_from_graph(G, p, initial_infecteds=None,
                 SS += sum(1 for nbr in G.neighbors(node) if status[nbr]=='S')
                 SR += sum(1 for nbr in G.neighbors(node) if status[nbr]=='R')
                 SX += k
+        if SX == 0: #no susceptible node has a neighbor; phiS0, phiR0 play no role
+            SX = 1
         phiS0 = SS*1./SX
         phiR0 = SR*1./SX
         
@@ -4895,10 +4900,13 @@ def Attack_rate_cts_time(Pk, tau, gamma, number_its =100, rho = None,
 
     kave = sum(Pk[k]*k for k in Pk.keys())
     omega = gamma/(gamma+tau)
+    psihatPrime1 = psihatPrime(1)
+    if psihatPrime1 == 0: #psihatPrime is identically 0 if no susceptible node has a neighbor
+        psihatPrime1 = 1
     for counter in range(number_its):
         #print omega
         omega = gamma/(gamma+tau) \
-                + tau*phiS0*psihatPrime(omega)/(psihatPrime(1)*(gamma+tau)) \
+                + tau*phiS0*psihatPrime(omega)/(psihatPrime1*(gamma+tau)) \
                 + tau*phiR0/(gamma+tau)
     return 1 - psihat(omega)
 
@@ -4940,6 +4948,8 @@ def Attack_rate_cts_time_from_graph(G,  tau, gamma, initial_infecteds=None,
                 SS += sum(1 for nbr in G.neighbors(node) if status[nbr]=='S')
                 SR += sum(1 for nbr in G.neighbors(node) if status[nbr]=='R')
                 SX += k
+        if SX == 0: #no susceptible node has a neighbor; phiS0, phiR0 play no role
+            SX = 1
         phiS0 = SS*1./SX
         phiR0 = SR*1./SX
     else:
@@ -5034,9 +5044,12 @@ def EBCM_discrete(N, psihat, psihatPrime, p, phiS0, phiR0=0, R0=0, tmin = 0, tma
     S = [N*psihat(1)]
     I = [N-S[-1]-R[-1]]
 
+    psihatPrime1 = psihatPrime(1)
+    if psihatPrime1 == 0: #psihatPrime is identically 0 if no susceptible node has a neighbor
+        psihatPrime1 = 1
     for time in range(tmin+1,tmax+1):
         times.append(time)
-        newtheta = (1-p) + p *(phiR0 + phiS0*psihatPrime(theta[-1])/psihatPrime(1))
+        newtheta = (1-p) + p *(phiR0 + phiS0*psihatPrime(theta[-1])/psihatPrime1)
         newR = R[-1]+I[-1]
         newS = N*psihat(newtheta)
         newI = N-newR-newS
@@ -5134,6 +5147,8 @@ def EBCM_discrete_from_graph(G, p, initial_infecteds=None,
             return sum(Pk[k]*Sk0[k]*x**k/Nk[k] for k in Pk)
         def psihatPrime(x):
             return sum(k*Pk[k]*Sk0[k]*x**(k-1)/Nk[k] for k in Pk)
+        if SX == 0: #no susceptible node has a neighbor; phiS0, phiR0 play no role
+            SX = 1
         phiS0 = SS*1./SX
         phiR0 = SR*1./SX
         #print('here',Sk0, len(initial_infecteds)/sum(Nk))
@@ -5202,7 +5217,10 @@ def _dEBCM_(X, t, N, tau, gamma, psihat, psihatPrime, phiS0, phiR0):
     theta = X[0]
     R = X[1]
     
-    dtheta = -tau*theta + tau*phiS0*psihatPrime(theta)/psihatPrime(1) \
+    psihatPrime1 = psihatPrime(1)
+    if psihatPrime1 == 0: #psihatPrime is identically 0 if no susceptible node has a neighbor
+        psihatPrime1 = 1
+    dtheta = -tau*theta + tau*phiS0*psihatPrime(theta)/psihatPrime1 \
                 + gamma*(1-theta) + tau*phiR0
 
     S = N*psihat(theta)
@@ -5313,6 +5331,8 @@ def EBCM_from_graph(G, tau, gamma, initial_infecteds=None,
             return sum(Pk[k]*Sk0[k]*x**k for k in Pk)
         def psihatPrime(x):
             return sum(k*Pk[k]*Sk0[k]*x**(k-1) for k in Pk)
+        if SX == 0: #no susceptible node has a neighbor; phiS0, phiR0 play no role
+            SX = 1
         phiS0 = SS*1./SX
         phiR0 = SR*1./SX
 
